@@ -1441,6 +1441,17 @@ template <typename FSM> void Explorer<FSM>::checkC08() {
 		SerialBuffer* buf = heapBuf();
 		a.fsm->save(*buf);
 		if (a.key() != ka || a.env.trace.size() != ta) E::R().violation("C08", "save/not-const", "save() changed the instance or invoked callbacks", src->hist);
+		{	// a buffer may be reused: what save() writes does not depend on what the buffer held before
+			for (const int fill : {0xFF, 0x5A}) {
+				SerialBuffer* dirty = heapBuf();
+				memset(dirty->data(), fill, sizeof(typename SerialBuffer::Data));
+				a.fsm->save(*dirty);
+				++counters["c08_saves_into_used_buffers"];
+				if (memcmp(buf->data(), dirty->data(), sizeof(typename SerialBuffer::Data)) != 0)
+					E::R().violation("C08", "save/depends-on-previous-buffer-content", "save() into a buffer that previously held other data (all bytes " + str(fill) + ") gives a different buffer than save() into a fresh one (state " + src->key + ")", src->hist);
+				dirty->~SerialBuffer(); free(dirty);
+			}
+		}
 		const Snap sa = a.snap();
 		for (const Node* dst : nodes) {
 			Runner b;
